@@ -1314,10 +1314,10 @@ Qed.
 
 (* ---------------------------------------------------------------- LE connection response *)
 Lemma inv_recv_le_rsp m h id dcid credits result :
-  Inv m -> frame_ok m h (FLeRsp id dcid credits result) = true ->
+  Inv m -> le_rsp_ok m h id dcid result = true ->
   Inv (fst (recv_le_rsp m h id dcid credits result)).
 Proof.
-  intros I Hok. unfold recv_le_rsp. cbn in Hok. unfold target_kind in Hok.
+  intros I Hok. unfold recv_le_rsp. unfold le_rsp_ok in Hok. cbn in Hok. unfold target_kind in Hok.
   destruct (tget h id (m_reqs m)) as [scid|] eqn:Er; [|auto].
   pose proof (inv_reqs_del m h id I) as I1.
   cbn [m_chs with_reqs].
@@ -2544,10 +2544,10 @@ Proof.
 Qed.
 
 Lemma inv_recv_enh_rsp m h id credits result dcids :
-  Inv m -> frame_ok m h (FEnhRsp id credits result dcids) = true ->
+  Inv m -> enh_rsp_ok m h id result dcids = true ->
   Inv (fst (recv_enh_rsp m h id credits result dcids)).
 Proof.
-  intros I Hok. unfold recv_enh_rsp. cbn in Hok.
+  intros I Hok. unfold recv_enh_rsp. unfold enh_rsp_ok in Hok. cbn in Hok.
   destruct (tget h id (m_pend m)) as [[w us]|] eqn:Hp; [|auto]. cbn [fst].
   destruct (inv_enh_each h id (Z.eqb result R_OK) credits us m dcids w I Hp) as [I1 P1].
   { intros E. rewrite E in Hok. cbn in Hok. apply andb_true_iff in Hok. destruct Hok as [Hok H3].
@@ -2888,7 +2888,7 @@ Theorem reopen_le_completes m h psm credits dcid credits' : reachable m ->
   tget h (nid m h) (m_reqs m) = None ->
   let m1 := fst (step m (EOpen h K_LE psm 1 0 credits)) in
   tget h dcid (m_le m1) = None ->
-  let m2 := fst (step m1 (ERecv h (FLeRsp (nid m h) dcid credits' R_OK))) in
+  let m2 := fst (step m1 (ERecv h (FLeRsp (nid m h) dcid credits' R_OK true))) in
   wout m2 (wuid m) = O_RESULT /\
   exists c, hget m2 (huid m) = Some c /\ c_st c = SConnected /\ c_dcid c = dcid /\
             In (h, c_scid c, huid m) (m_chs m2) /\ In (h, dcid, huid m) (m_le m2).
@@ -2914,7 +2914,7 @@ Proof.
     subst s. eexists. autorewrite with acc. rewrite !Z.eqb_refl. cbn. split; [reflexivity|]. cbn. repeat split; auto. }
   destruct Hu as [c (Hu & Ek & Ec & Es & Est & Ecw & Edc)].
   assert (Hchs : tget h scid (m_chs m1) = Some (huid m)) by (apply (In_tget _ _ _ _ (nd_chs m1 I1)); auto).
-  subst m2. cbn [step recv]. unfold recv_le_rsp. rewrite Hreq. cbn [m_chs with_reqs].
+  subst m2. cbn [step recv]. change (eff_le R_OK true) with R_OK. unfold recv_le_rsp. rewrite Hreq. cbn [m_chs with_reqs].
   rewrite Hchs. change (hget (with_reqs m1 (tdel h (nid m h) (m_reqs m1))) (huid m)) with (hget m1 (huid m)).
   rewrite Hu, Ecw. rewrite Z.eqb_refl. cbn [fst]. unfold le_register. autorewrite with acc. rewrite Hu, Z.eqb_refl. cbn [option_map].
   split.
@@ -2934,7 +2934,7 @@ Theorem reopen_le_accept m h id psm scid credits srv : reachable m ->
   tget h scid (m_le m) = None ->
   Z.of_nat (length (tkeys h (m_chs m))) < le_capacity ->
   exists local,
-    snd (step m (ERecv h (FLeReq id psm scid credits true))) = [FLeRsp id local srv R_OK] /\
+    snd (step m (ERecv h (FLeReq id psm scid credits true))) = [FLeRsp id local srv R_OK true] /\
     le_cid_lo <= local <= le_cid_hi /\ tget h local (m_chs m) = None /\
     let m1 := fst (step m (ERecv h (FLeReq id psm scid credits true))) in
     In (h, local, huid m) (m_chs m1) /\ In (h, scid, huid m) (m_le m1).
@@ -3445,10 +3445,10 @@ Proof.
 Qed.
 
 Lemma sc_recv_enh_rsp b m h id credits result dcids :
-  Inv m -> frame_ok m h (FEnhRsp id credits result dcids) = true -> b <> h ->
+  Inv m -> enh_rsp_ok m h id result dcids = true -> b <> h ->
   same_conn b m (fst (recv_enh_rsp m h id credits result dcids)).
 Proof.
-  intros I Hok Hn. unfold recv_enh_rsp. cbn in Hok.
+  intros I Hok Hn. unfold recv_enh_rsp. unfold enh_rsp_ok in Hok. cbn in Hok.
   destruct (tget h id (m_pend m)) as [[w us]|] eqn:Hp; [|apply sc_refl]. cbn [fst].
   apply sc_enh_finish; auto.
   intros E. rewrite E in Hok. cbn in Hok. apply andb_true_iff in Hok. destruct Hok as [Hok H3].
